@@ -30,7 +30,7 @@ use crate::common::{Outcome, Violation, hash_str, pick, sub};
 use launcher::{LaunchShared, Resolution};
 use monitors::Monitors;
 use obs::{EpochObs, FromW, LossObs, MsgObs, Obs, ToW, summarize_from_worker, summarize_to_worker};
-use world::{Shared, World, WorldParams};
+use world::{Sel, Shared, World, WorldParams};
 
 #[derive(Serialize, Deserialize, Debug, Clone)]
 pub struct SimCase {
@@ -68,6 +68,7 @@ pub struct Weights {
     pub end_fail: u32,
     pub advance: u32,
     pub retract_check: u32,
+    pub queue_ev: u32,
     pub idle_stop: u32,
     pub lost: u32,
     pub crash: u32,
@@ -100,6 +101,7 @@ pub fn profile_weights(name: &str) -> Weights {
         lost: 3,
         crash: 0,
         launch_fail: 1,
+        queue_ev: 0,
     };
     match name {
         "chaos" => Weights {
@@ -139,6 +141,15 @@ pub fn profile_weights(name: &str) -> Weights {
             lost: 4,
             advance: 3,
             cancel: 3,
+            ..base
+        },
+        "resources" => Weights {
+            connect: 8,
+            lost: 3,
+            advance: 4,
+            cancel: 4,
+            end_fail: 6,
+            launch_fail: 5,
             ..base
         },
         "steal" => Weights {
@@ -188,6 +199,7 @@ pub fn profile_weights(name: &str) -> Weights {
             prune: 8,
             flush: 2,
             connect: 8,
+            queue_ev: 4,
             ..base
         },
         "journal" => Weights {
@@ -199,6 +211,7 @@ pub fn profile_weights(name: &str) -> Weights {
             lost: 5,
             prune: 2,
             flush: 3,
+            queue_ev: 4,
             ..base
         },
         _ => base,
@@ -208,12 +221,16 @@ pub fn profile_weights(name: &str) -> Weights {
 #[derive(Debug, Clone)]
 pub enum Action {
     Connect { palette: usize },
+    /// worker started inside an allocation of an allocation queue (carries manager info)
+    ConnectAlloc { palette: usize, pick: u32 },
+    QueueEvent { arg: u32 },
     Submit { arg: u32, invalid: bool },
     OpenJob { max_fails: Option<u32> },
-    CloseJob { job: JobId },
-    Cancel { job: JobId },
-    ForgetJob { job: JobId },
+    CloseJob { job: JobId, sel: u32 },
+    Cancel { job: JobId, sel: u32 },
+    ForgetJob { job: JobId, sel: u32 },
     JobInfo,
+    Query { arg: u32 },
     StopWorker { worker: WorkerId },
     FlushJournal,
     PruneJournal,
@@ -241,6 +258,8 @@ pub struct Limits {
 pub const GEN_CURRENT: u8 = 1;
 
 pub struct Sim {
+    /// the choice sequence of the case (a restored server continues with a part of it)
+    pub case_choices: Vec<(u16, u32)>,
     pub genv: u8,
     pub world: World,
     pub obs: Rc<RefCell<Obs>>,
@@ -310,6 +329,7 @@ impl Sim {
         let obs = Rc::new(RefCell::new(Obs::default()));
         obs.borrow_mut().epochs.push(EpochObs::default());
         Sim {
+            case_choices: case.choices.clone(),
             genv: case.genv,
             world,
             obs,
@@ -324,6 +344,18 @@ impl Sim {
             worker_counter: 0,
             params,
             total_tasks_submitted: 0,
+        }
+    }
+
+    /// Selector of a cancel / close / forget request. `sel` = 0 keeps the behaviour of old replay
+    /// files (exactly the given job).
+    fn make_sel(&self, job: JobId, sel: u32) -> Sel {
+        match sel {
+            0..=5 => Sel::Specific(vec![job.as_num()]),
+            6 => Sel::All,
+            7 => Sel::LastN(1),
+            8 => Sel::LastN(2),
+            _ => Sel::Specific(vec![job.as_num(), 4242]),
         }
     }
 
@@ -399,6 +431,20 @@ impl Sim {
                 },
             ));
         }
+        if self.genv >= 1 && w.queue_ev > 0 {
+            out.push((w.queue_ev, Action::QueueEvent { arg: c2 }));
+            if n_workers < self.limits.max_workers
+                && world.sim_queues.values().any(|a| !a.is_empty())
+            {
+                out.push((
+                    w.queue_ev,
+                    Action::ConnectAlloc {
+                        palette: sub(c2, 3, palette::N_WORKER_PALETTE),
+                        pick: c2,
+                    },
+                ));
+            }
+        }
         if can_request {
             if self.total_tasks_submitted < self.limits.max_tasks && jobs.len() < self.limits.max_jobs + 2 {
                 let boost = if core_tasks == 0 { 4 } else { 1 };
@@ -420,15 +466,21 @@ impl Sim {
                     w.close,
                     Action::CloseJob {
                         job: open[sub(c2, 5, open.len())],
+                        sel: if self.genv >= 1 { 1 + sub(c2, 16, 9) as u32 } else { 0 },
                     },
                 ));
             }
             if !jobs.is_empty() {
                 let j = jobs[sub(c2, 6, jobs.len())].0;
-                out.push((w.cancel, Action::Cancel { job: j }));
+                let sel = if self.genv >= 1 { 1 + sub(c2, 17, 9) as u32 } else { 0 };
+                out.push((w.cancel, Action::Cancel { job: j, sel }));
                 let j = jobs[sub(c2, 7, jobs.len())].0;
-                out.push((w.forget, Action::ForgetJob { job: j }));
+                let sel = if self.genv >= 1 { 1 + sub(c2, 18, 9) as u32 } else { 0 };
+                out.push((w.forget, Action::ForgetJob { job: j, sel }));
                 out.push((w.info, Action::JobInfo));
+                if self.genv >= 1 {
+                    out.push((w.info, Action::Query { arg: c2 }));
+                }
             }
             let alive: Vec<WorkerId> = world.workers.values().filter(|w| w.alive).map(|w| w.id).collect();
             if !alive.is_empty() {
@@ -548,6 +600,77 @@ impl Sim {
                 let id = self.world.connect_worker(cfg, palette);
                 format!("connect w{id} palette={palette}")
             }
+            Action::ConnectAlloc { palette, pick } => {
+                let (desc, group, limit) = palette::worker_descriptor(palette);
+                self.worker_counter += 1;
+                let mut cfg = palette::worker_configuration(desc, group, limit, self.worker_counter);
+                let allocs: Vec<(u32, String)> = self
+                    .world
+                    .sim_queues
+                    .iter()
+                    .flat_map(|(q, a)| a.iter().map(|x| (*q, x.clone())))
+                    .collect();
+                let (q, alloc) = allocs[sub(pick, 151, allocs.len())].clone();
+                let info = hyperqueue::common::manager::info::ManagerInfo {
+                    manager: hyperqueue::common::manager::info::ManagerType::Slurm,
+                    allocation_id: alloc.clone(),
+                    time_limit: None,
+                    max_memory_mb: None,
+                };
+                cfg.extra.insert(
+                    hyperqueue::common::manager::info::WORKER_EXTRA_MANAGER_KEY.to_string(),
+                    serde_json::to_string(&info).unwrap(),
+                );
+                let id = self.world.connect_worker(cfg, palette);
+                self.obs.borrow_mut().class("worker-from-allocation");
+                format!("connect w{id} palette={palette} allocation={alloc} of queue {q}")
+            }
+            Action::QueueEvent { arg } => {
+                let ev = self.world.senders.events.clone();
+                let live: Vec<u32> = self.world.sim_queues.keys().copied().collect();
+                let kind = if live.is_empty() { 0 } else { sub(arg, 150, 7) };
+                match kind {
+                    0 | 1 if live.len() < 3 => {
+                        let id = self.world.queue_counter;
+                        self.world.queue_counter += 1;
+                        ev.on_allocation_queue_created(id, palette::queue_parameters(arg));
+                        self.world.sim_queues.insert(id, Vec::new());
+                        self.obs.borrow_mut().class("queue-created");
+                        format!("queue-event: created queue {id}")
+                    }
+                    2 => {
+                        let q = live[sub(arg, 152, live.len())];
+                        ev.on_allocation_queue_removed(q);
+                        self.world.sim_queues.remove(&q);
+                        self.obs.borrow_mut().class("queue-removed");
+                        format!("queue-event: removed queue {q}")
+                    }
+                    3 | 4 | 0 | 1 => {
+                        let q = live[sub(arg, 152, live.len())];
+                        self.world.alloc_counter += 1;
+                        let a = format!("alloc-{}", self.world.alloc_counter);
+                        ev.on_allocation_queued(q, a.clone(), 1 + sub(arg, 153, 3) as u64);
+                        self.world.sim_queues.get_mut(&q).unwrap().push(a.clone());
+                        format!("queue-event: allocation {a} queued in queue {q}")
+                    }
+                    _ => {
+                        let q = live[sub(arg, 152, live.len())];
+                        let allocs = self.world.sim_queues[&q].clone();
+                        if allocs.is_empty() {
+                            format!("queue-event: nothing (queue {q} has no allocation)")
+                        } else {
+                            let a = allocs[sub(arg, 154, allocs.len())].clone();
+                            if kind == 5 {
+                                ev.on_allocation_started(q, a.clone());
+                                format!("queue-event: allocation {a} started")
+                            } else {
+                                ev.on_allocation_finished(q, a.clone());
+                                format!("queue-event: allocation {a} finished")
+                            }
+                        }
+                    }
+                }
+            }
             Action::Submit { arg, invalid } => self.do_submit(arg, invalid),
             Action::OpenJob { max_fails } => {
                 let c = self.world.idle_client();
@@ -562,48 +685,155 @@ impl Sim {
                 );
                 format!("open-job max_fails={max_fails:?} client={c}")
             }
-            Action::CloseJob { job } => {
+            Action::CloseJob { job, sel } => {
                 let c = self.world.idle_client();
-                self.world.send_request(
+                let s = self.make_sel(job, sel);
+                self.world.send_request_sel(
                     c,
                     FromClientMessage::CloseJob(CloseJobRequest {
-                        selector: IdSelector::Specific(palette::int_array(&[job.as_num()])),
+                        selector: s.to_selector(),
                     }),
                     "close",
-                    false,
+                    s.clone(),
+                    Vec::new(),
                 );
-                format!("close-job {job} client={c}")
+                format!("close-job {s:?} client={c}")
             }
-            Action::Cancel { job } => {
+            Action::Cancel { job, sel } => {
                 let c = self.world.idle_client();
-                self.world.send_request(
+                let s = self.make_sel(job, sel);
+                self.world.send_request_sel(
                     c,
                     FromClientMessage::Cancel(CancelRequest {
-                        selector: IdSelector::Specific(palette::int_array(&[job.as_num()])),
+                        selector: s.to_selector(),
                         reason: None,
                     }),
                     &format!("cancel:{}", job.as_num()),
-                    false,
+                    s.clone(),
+                    Vec::new(),
                 );
-                format!("cancel-job {job} client={c}")
+                format!("cancel-job {s:?} client={c}")
             }
-            Action::ForgetJob { job } => {
+            Action::ForgetJob { job, sel } => {
+                use hyperqueue::client::status::Status;
                 let c = self.world.idle_client();
-                self.world.send_request(
+                let s = self.make_sel(job, sel);
+                let filter = match if sel == 0 { 0 } else { sub(sel, 171, 5) } {
+                    0 | 1 => vec![Status::Finished, Status::Failed, Status::Canceled, Status::Aborted],
+                    2 => vec![Status::Finished],
+                    3 => vec![Status::Failed, Status::Canceled],
+                    _ => vec![Status::Canceled, Status::Aborted, Status::Opened, Status::Waiting],
+                };
+                self.world.send_request_sel(
                     c,
                     FromClientMessage::ForgetJob(ForgetJobRequest {
-                        selector: IdSelector::Specific(palette::int_array(&[job.as_num()])),
-                        filter: vec![
-                            hyperqueue::client::status::Status::Finished,
-                            hyperqueue::client::status::Status::Failed,
-                            hyperqueue::client::status::Status::Canceled,
-                            hyperqueue::client::status::Status::Aborted,
-                        ],
+                        selector: s.to_selector(),
+                        filter: filter.clone(),
                     }),
                     &format!("forget:{}", job.as_num()),
-                    false,
+                    s.clone(),
+                    filter.clone(),
                 );
-                format!("forget-job {job} client={c}")
+                format!("forget-job {s:?} filter={filter:?} client={c}")
+            }
+            Action::Query { arg } => {
+                use hyperqueue::transfer::messages::{
+                    SingleIdSelector, TaskExplainRequest, WorkerInfoRequest,
+                };
+                let c = self.world.idle_client();
+                let jobs = self.jobs();
+                let (msg, d) = match sub(arg, 180, 8) {
+                    0 => (FromClientMessage::GetList { workers: true }, "get-list".to_string()),
+                    1 => {
+                        let s = match sub(arg, 181, 3) {
+                            0 => Sel::All,
+                            1 => Sel::LastN(2),
+                            _ => Sel::Specific(vec![1 + sub(arg, 182, 6) as u32, 99]),
+                        };
+                        (
+                            FromClientMessage::WorkerInfo(WorkerInfoRequest {
+                                selector: s.to_selector(),
+                                runtime_info: sub(arg, 183, 2) == 0,
+                            }),
+                            format!("worker-info {s:?}"),
+                        )
+                    }
+                    2 => (FromClientMessage::ServerInfo, "server-info".to_string()),
+                    3 | 4 => {
+                        let js = if jobs.is_empty() || sub(arg, 184, 5) == 0 {
+                            SingleIdSelector::Last
+                        } else if sub(arg, 184, 5) == 1 {
+                            SingleIdSelector::Specific(4242)
+                        } else {
+                            SingleIdSelector::Specific(jobs[sub(arg, 185, jobs.len())].0.as_num())
+                        };
+                        let t = sub(arg, 186, 8) as u32;
+                        (
+                            FromClientMessage::TaskExplain(TaskExplainRequest {
+                                job_selector: js.clone(),
+                                task_id: t.into(),
+                            }),
+                            format!("task-explain {js:?} task {t}"),
+                        )
+                    }
+                    5 => (
+                        FromClientMessage::ServerDebugDump(self.params.dir.join("debug-dump.json")),
+                        "debug-dump".to_string(),
+                    ),
+                    6 => {
+                        let s = match sub(arg, 187, 3) {
+                            0 => Sel::LastN(1 + sub(arg, 188, 3) as u32),
+                            1 => Sel::Specific(vec![1 + sub(arg, 188, 6) as u32, 4242]),
+                            _ => Sel::All,
+                        };
+                        (
+                            FromClientMessage::JobInfo(
+                                JobInfoRequest {
+                                    selector: s.to_selector(),
+                                    include_running_tasks: sub(arg, 189, 2) == 0,
+                                },
+                                None,
+                            ),
+                            format!("job-info {s:?}"),
+                        )
+                    }
+                    _ => {
+                        use hyperqueue::client::status::Status;
+                        let s = match sub(arg, 187, 3) {
+                            0 => Sel::LastN(1 + sub(arg, 188, 3) as u32),
+                            1 => Sel::Specific(vec![1 + sub(arg, 188, 6) as u32, 4242]),
+                            _ => Sel::All,
+                        };
+                        let ts = match sub(arg, 190, 4) {
+                            0 => None,
+                            1 => Some(TaskSelector {
+                                id_selector: TaskIdSelector::Specific(palette::int_array(&[0, 1, 2, 500])),
+                                status_selector: TaskStatusSelector::All,
+                            }),
+                            2 => Some(TaskSelector {
+                                id_selector: TaskIdSelector::All,
+                                status_selector: TaskStatusSelector::Specific(vec![
+                                    Status::Running,
+                                    Status::Failed,
+                                ]),
+                            }),
+                            _ => Some(TaskSelector {
+                                id_selector: TaskIdSelector::All,
+                                status_selector: TaskStatusSelector::All,
+                            }),
+                        };
+                        (
+                            FromClientMessage::JobDetail(JobDetailRequest {
+                                job_id_selector: s.to_selector(),
+                                task_selector: ts,
+                            }),
+                            format!("job-detail {s:?}"),
+                        )
+                    }
+                };
+                self.world.send_request(c, msg, "query", false);
+                self.obs.borrow_mut().class("query");
+                format!("query {d} client={c}")
             }
             Action::JobInfo => {
                 let c = self.world.idle_client();
@@ -836,8 +1066,10 @@ impl Sim {
         self.world.pump();
         self.record_sent();
         self.mon.current_client = Some(c);
+        self.mon.current_sel = self.world.clients[c].pending.as_ref().and_then(|p| p.sel.clone());
         self.mon.after_step(&self.world, &mut self.obs.borrow_mut());
         self.mon.current_client = None;
+        self.mon.current_sel = None;
         for m in msgs {
             match m {
                 ToClientMessage::Event(e) => {
